@@ -2,7 +2,8 @@ pub mod c02;
 pub mod c04;
 pub mod c05;
 pub mod c06;
+pub mod c15;
 pub mod c19;
 pub mod c20;
 
-pub const ALL: &[&str] = &["C02", "C04", "C05", "C06", "C19", "C20"];
+pub const ALL: &[&str] = &["C02", "C04", "C05", "C06", "C15", "C19", "C20"];
